@@ -94,9 +94,15 @@ func c13Differential(c *hx.Ctx, r *hx.RNG) {
 		c.Note(what)
 		want := strconv.FormatFloat(f, ft, prec, 64)
 		var got, gotA string
+		// the caller's buffer: exactly full, or with spare capacity (that Append may use, without disturbing what is there)
+		buf := make([]byte, 2, 2+[]int{0, 0, 1, 7, 24, 64, 400, 4096}[r.Intn(8)])
+		copy(buf, "<<")
+		for i := range buf[2:cap(buf)] {
+			buf[2:cap(buf)][i] = 0xAA
+		}
 		pi := hx.Try(func() {
 			got = x.Text(ft, prec)
-			gotA = string(x.Append([]byte("<<"), ft, prec))
+			gotA = string(x.Append(buf, ft, prec))
 		})
 		c.Eval(hx.HashStr(what), true, fmt.Sprintf("strconv/%c", ft))
 		if c.WantSample(fmt.Sprintf("strconv/%c", ft)) {
@@ -115,7 +121,7 @@ func c13Differential(c *hx.Ctx, r *hx.RNG) {
 			return
 		}
 		if gotA != "<<"+want {
-			c.Violate("append-differs", fmt.Sprintf("Append of %s = %q", what, gotA), "")
+			c.Violate("append-differs", fmt.Sprintf("Append of %s to a 2-byte buffer of capacity %d = %q", what, cap(buf), gotA), "")
 		}
 	} else { // fmt verbs with flags, width and precision against fmt on the float64
 		verb := "eEfFgGv"[r.Intn(7)]
